@@ -15,10 +15,10 @@ CFG = dict(
         "migration (stateMoving), proxies, user Shutdown callbacks, work hours / kill date timers are not modelled",
         "Server.Close's wait (<-s.ch) and the wait for Session.lock are not proved to end (no theorem; the oracle watches them)",
     ],
-    level_text="Seventeen theorems over the Gallina interleaving model of the close paths (c2/session.go, vars.go, server.go, listener.go, types.go) for ALL schedules, ANY "
+    level_text="Twenty-one theorems over the Gallina interleaving model of the close paths (c2/session.go, vars.go, server.go, listener.go, types.go) for ALL schedules, ANY "
                "number of concurrent close calls and all protocol-state flags, by induction on the schedule with a counting invariant: no channel is closed twice or while nil and no send hits a closed "
                "channel (full strength: no fault is reachable); closed is final; Session.Close and Listener.Close return under the stated fairness; "
-               "the closing client's last transmission carries SvShutdown, a server-side close queues it and its receipt closes the client; the server forgets the session. The eleven defects found and repaired "
+               "the closing client's last transmission carries SvShutdown, a server-side close queues it and its receipt closes the client; the server forgets the session. The thirteen defects found and repaired "
                "(double close of s.ch, spinning eventer, send on closed send/wake, notice dropped on a context cancel, Remove's send racing Server.shutdown, Close racing the server start, shutdown waiting for a listener name already taken, four around Listener.Replace / chanWake) are kept as refuted lemmas against the old step list "
                "(those outside the model's step lists only as seeded regressions). The model is tied to /repo by ~110 real teardown scenarios over TCP loopback whose abstract trace is compared with the model, and by racing groups "
                "through the real receiveSingle.",
